@@ -507,7 +507,9 @@ def _calibration_outside_chunk_loop(ctx):
               "anchors would be computed per chunk", node=calls[0])
     # predictions of all chunks are collected before: hstack over the list
     T = Terms(DefUse(prog, f), phi_vars=True)
-    a0 = T.of(calls[0].args[0]) if calls[0].args else ("unknown", "")
+    cb = prog.bind(prog.func("mokapot.dataset.calibrate_scores"), calls[0])
+    a0 = T.of(cb["scores"]) if cb.get("scores") is not None else (
+        "unknown", "")
     c0 = np_call(a0)
     ctx.check(bool(c0) and c0[0] in ("hstack", "concatenate"),
               "C05d-all-chunks-collected", f,
